@@ -319,3 +319,12 @@ Theorem C01_roundtrip_stream_writer : forall c dc k size fs (ps : list eparts), 
         exists fts, decode_stream dc (final_bytes w') = Ok fts /\ Forall2 (fun ft r => map content (fit_msgs ft) = map content (er_msgs r)) fts rs).
 Proof. exact roundtrip_stream_writer. Qed.
 Print Assumptions C01_roundtrip_stream_writer.
+
+(* ... and the stream encoder at message level (WriteMessage per message with the state kept between calls, SequenceCompleted
+   with Encoder.reset as translated from the source): whatever it accepts and writes is an output of encode_fits for the same
+   message lists under the stream encoder's zero header, so every round-trip statement above applies to it unchanged *)
+From Fit Require Import Model.Stream Proofs.StreamProofs.
+Theorem C01_stream_output_is_encode_fits : forall c fs out, stream_bytes c fs = Ok out ->
+  encode_fits c (map (mkefile 0 0 0) fs) [] = Ok out.
+Proof. exact stream_bytes_are_encode_fits. Qed.
+Print Assumptions C01_stream_output_is_encode_fits.
